@@ -371,6 +371,9 @@ def run_trace_job(job, prop, seed, scratch, ev, rec):
         return
     s = json.loads(p.stdout.strip().splitlines()[-1])
     rec.update(rounds=s.get("rounds"), events=s.get("events"), calls=s.get("calls"), parallel_exchanges=s.get("parallel_exchanges"))
+    if s.get("registrations_in_parallel"):
+        rec["registrations_in_parallel"] = s["registrations_in_parallel"]
+        ev["checked"]["client registrations in the middle of parallel syncs"] = ev["checked"].get("client registrations in the middle of parallel syncs", 0) + s["registrations_in_parallel"]
     for v in s.get("violations") or []:
         v["confirm_cmd"] = " ".join(cmd) + " >/dev/null 2>&1"
         ev["violations"].append(v)
